@@ -59,7 +59,7 @@ func infixFunc(ctx *flags.Context) error {
 		hosts = append(hosts, scanner.Value())
 	}
 	if len(hosts) == 0 {
-		ctx.Raise(fmt.Errorf("host sequence file %q does not contain a sequence", *hostPath))
+		return ctx.Raise(fmt.Errorf("host sequence file %q does not contain a sequence", *hostPath))
 	}
 	hostSum := h.Sum(nil)
 
